@@ -432,11 +432,14 @@ func (fr *Frame) valEq(st *State, a, b Val, t types.Type) Term {
 	}
 	switch u := t.Underlying().(type) {
 	case *types.Slice:
-		// only comparison with nil is legal
-		if b.C[0].S == "0" {
+		// Go only allows comparison with nil; in contracts == on slices is header identity
+		if b.C[0].S == "0" && b.C[2].S == "0" {
 			return Eq(a.C[0], Nil)
 		}
-		return Eq(b.C[0], Nil)
+		if a.C[0].S == "0" && a.C[2].S == "0" {
+			return Eq(b.C[0], Nil)
+		}
+		return And(Eq(a.C[0], b.C[0]), Eq(a.C[1], b.C[1]), Eq(a.C[2], b.C[2]), Eq(a.C[3], b.C[3]))
 	case *types.Basic:
 		if isString(t) {
 			return fr.stringEq(st, a, b)
